@@ -7,7 +7,7 @@ From BZ Require Import Base.Ops Model.Curve.
 Import ListNotations.
 
 Section SelfN.
-Context {T : Type} (K : Ops T) (eqb : T -> T -> bool).
+Context {T : Type} (K : Ops T) (eqb : T -> T -> bool) (dup : T * T -> T * T -> bool).
 Local Notation "1" := (o1 K).
 Local Infix "+" := (oadd K). Local Infix "*" := (omul K).
 Definition hf : T := half K.
@@ -15,6 +15,9 @@ Definition pairT := (T * T)%type.
 Record streamsN := mkS { anglesN : list bool; isectsN : list (list pairT) }.
 Definition callN := (list (list T) * list (list T) * list pairT)%type.
 Definition is_splitN (p : pairT) : bool := eqb (fst p) hf && eqb (snd p) hf.
+(* removal of repeated pairs (the loop over add_intersection): `dup p e` = "p repeats the already kept e" *)
+Definition uniqN (l : list pairT) : list pairT :=
+  fold_left (fun acc p => if existsb (dup p) acc then acc else acc ++ [p]) l [].
 
 Fixpoint self_isect_n (fuel : nat) (rows : list (list T)) (st : streamsN) : option (list pairT * list callN * streamsN) :=
   match fuel with
@@ -38,7 +41,7 @@ Fixpoint self_isect_n (fuel : nat) (rows : list (list T)) (st : streamsN) : opti
                       let ls := map (fun p => (hf * fst p, hf * snd p)) left_self in
                       let rs := map (fun p => (hf + hf * fst p, hf + hf * snd p)) right_self in
                       let cross := filter (fun p => negb (is_splitN p)) (map (fun p => (fst p * hf, snd p * hf + hf)) lr) in
-                      Some (ls ++ cross ++ rs, calls1 ++ calls2 ++ [(l, r, lr)], mkS (anglesN st2) more)
+                      Some (uniqN (ls ++ cross ++ rs), calls1 ++ calls2 ++ [(l, r, lr)], mkS (anglesN st2) more)
                   end
               end
           end
